@@ -103,6 +103,32 @@ def oracle(spec, run, pid=ID):
             if worst > bound:
                 v.append(("%s:%s:accepted-exceeds-bound-by-%s" % (pid, k, "1" if worst - bound == 1 else "2+"),
                           "node %d %s: %d accepted but not handed on" % (i, nd["p"], worst)))
+    # map_async hands one result at a time to what is below it and waits for it ("awaits
+    # downstream before taking the next element"): with only consumers directly below, accepted
+    # elements whose consumers have not finished are the <= par queued jobs plus the one being
+    # delivered (the "+1" of the known finding included)
+    for i, nd in enumerate(nodes):
+        if nd["k"] != "map_async" or not all(nodes[a]["k"] in ONE2ONE for a in ancestors(spec, i)):
+            continue
+        kids = [c for c, n2 in enumerate(nodes) if i in n2["u"]]
+        if not kids or any(nodes[c]["k"] != "sink" for c in kids) or any(e[0] in ("jx", "cx", "fx")
+                                                                          for e in ev):
+            continue
+        waiting, accepted, worst = {}, 0, 0
+        fin = {c: 0 for c in kids}
+        for e in ev:
+            if e[0] == "arr" and e[1] == i:
+                for kk in prov(e[3]):
+                    waiting[kk] = waiting.get(kk, 0) + 1
+            elif e[0] == "emitdone" and e[1] in waiting:
+                accepted += waiting.pop(e[1])
+            elif e[0] == "cf" and e[1] in fin:
+                fin[e[1]] += 1
+            worst = max(worst, accepted - min(fin.values()))
+        if worst > nd["p"]["par"] + 1:
+            v.append(("%s:map_async:does-not-wait-for-its-consumers" % pid,
+                      "node %d parallelism=%d: %d elements accepted whose consumers have not "
+                      "finished" % (i, nd["p"]["par"], worst)))
     for i, j in run.built.jobs.items():
         par = nodes[i]["p"]["par"]
         if j.max_running == par:
